@@ -52,6 +52,15 @@ type dims struct {
 	ACR         bool   `json:"acr"`
 	AuthAge     string `json:"auth_age"`
 	Impersonate bool   `json:"te_impersonate,omitempty"`
+	// CfgReuse: how the application treats the *op.Config variable it hands to op.NewProvider. "" = a value of its own per
+	// provider, never touched again. "shared:next-tenant" = the variable is reused for a second provider (the sibling
+	// tenant) built AFTER this one, with another CryptoKey written into it. "shared:prev-tenant" = the sibling was built
+	// BEFORE this one from the same variable. "shared:wiped" = the key material in the variable is zeroed once the provider
+	// has been built. Only CryptoKey is ever rewritten.
+	CfgReuse string `json:"config_variable,omitempty"`
+	Tenant   string `json:"tenant,omitempty"` // "sibling": the step was driven on the sibling provider of a shared config variable
+	// Overlap describes the forced preemption of an overlap case (overlap.go)
+	Overlap *ovDims `json:"overlap,omitempty"`
 }
 
 // traceEntry is one literal request/response of the case (for witnesses and samples).
@@ -71,6 +80,11 @@ type env struct {
 	d       dims
 	cfg     op.Config
 	other   op.Crypto // AES crypto of "another world"
+	// cryptoKey is "the provider key": the CryptoKey the application configured this provider with when it built it
+	cryptoKey [32]byte
+	cfgPtr    *op.Config // the application's config variable (shared modes), as it stands now
+	sibling   *env       // the other tenant built from the same config variable (shared:next-tenant / shared:prev-tenant)
+	peerKey   *[32]byte  // the crypto key of the other tenant of the same config variable
 
 	issuerMode string
 	issuerBase string // static issuer (static modes)
@@ -133,11 +147,16 @@ func otherFamily(alg jose.SignatureAlgorithm) jose.SignatureAlgorithm {
 
 // newEnv builds the world of case (caseIdx, router). Everything is a pure function of the case PRNG.
 func newEnv(run *ev.Run, caseIdx, router int) *env {
-	r := run.CaseRand(6, caseIdx)
+	return buildEnv(run, run.CaseRand(6, caseIdx), run.CaseRand(66, caseIdx), caseIdx, router, flows[caseIdx%len(flows)])
+}
+
+// buildEnv builds a world for one flow from the PRNG r; r2 is the stream of the dimensions added later (config reuse),
+// kept apart so that the older dimensions of a case do not move.
+func buildEnv(run *ev.Run, r, r2 *rand.Rand, caseIdx, router int, flow string) *env {
 	e := &env{run: run, caseIdx: caseIdx, router: router, r: r}
 	d := &e.d
 	d.Router = opdrv.RouterNames[router]
-	d.Flow = flows[caseIdx%len(flows)]
+	d.Flow = flow
 	alg := keys.AllAlgs[caseIdx%len(keys.AllAlgs)]
 	d.Alg = string(alg)
 	e.algs = []jose.SignatureAlgorithm{alg}
@@ -210,6 +229,7 @@ func newEnv(run *ev.Run, caseIdx, router int) *env {
 		cfg.CryptoKey[i] = byte(r.IntN(256))
 	}
 	e.cfg = cfg
+	e.cryptoKey = cfg.CryptoKey
 	var otherKey [32]byte
 	for i := range otherKey {
 		otherKey[i] = byte(r.IntN(256))
@@ -255,9 +275,45 @@ func newEnv(run *ev.Run, caseIdx, router int) *env {
 		opt.Issuer = "https://unused.static.issuer.invalid"
 	}
 	opt.ProviderOpts = popts
-	var w *opdrv.World
+	// the application's config variable: a value per provider, or ONE variable for two tenants / wiped after use
+	d.CfgReuse = pick(r2, "", "", "", "shared:next-tenant", "shared:prev-tenant", "shared:wiped")
+	var sibKey [32]byte
+	for i := range sibKey {
+		sibKey[i] = byte(r2.IntN(256))
+	}
+	if sibKey == cfg.CryptoKey {
+		sibKey[0] ^= 1
+	}
+	var w, sw *opdrv.World
 	var err error
-	pi := mon.Catch(func() { w, err = opdrv.NewWorld(opt) })
+	pi := mon.Catch(func() {
+		if d.CfgReuse == "" {
+			w, err = opdrv.NewWorld(opt)
+			return
+		}
+		variable := cfg // the one config variable of the application
+		e.cfgPtr = &variable
+		sopt := opt
+		sopt.ConfigPtr, sopt.SigningKey = &variable, signingKey("op-sib", alg, "sib-"+string(alg))
+		opt.ConfigPtr = &variable
+		if d.CfgReuse == "shared:prev-tenant" {
+			variable.CryptoKey = sibKey
+			if sw, err = opdrv.NewWorld(sopt); err != nil {
+				return
+			}
+			variable.CryptoKey = cfg.CryptoKey
+		}
+		if w, err = opdrv.NewWorld(opt); err != nil {
+			return
+		}
+		switch d.CfgReuse {
+		case "shared:next-tenant":
+			variable.CryptoKey = sibKey
+			sw, err = opdrv.NewWorld(sopt)
+		case "shared:wiped":
+			variable.CryptoKey = [32]byte{}
+		}
+	})
 	if pi != nil {
 		e.panicked("setup", pi)
 		return nil
@@ -295,8 +351,42 @@ func newEnv(run *ev.Run, caseIdx, router int) *env {
 	}
 	// svc may also authenticate with client_secret_post in the client_credentials grant (credentials are read from the form)
 	e.setCustom()
+	if sw != nil {
+		// the sibling tenant: its own store, signing key and clients (same registration settings), no custom claims
+		sib := *e
+		sib.w, sib.cryptoKey, sib.sibling, sib.trace = sw, sibKey, nil, nil
+		sib.d.Tenant, sib.d.Custom, sib.d.KeyShape, sib.d.Ring, sib.d.RotateTo = "sibling", "none", "single", "", ""
+		sib.custom, sib.ring, sib.kidless = customCfg{}, nil, false
+		sib.sigKey = signingKey("op-sib", alg, "sib-"+string(alg))
+		sw.Store.AccessTTL = accessTTL
+		if d.Extras && tokenType == op.AccessTokenTypeJWT {
+			sw.Store.JWTProfileType = op.AccessTokenTypeJWT
+		}
+		sib.cl = opdrv.StdClients(sw.Store)
+		for _, c := range sib.cl {
+			c.DropIDTokenScopes, c.TokenType, c.Skew, c.IDTokenTTL, c.UserinfoInIDTok, c.ExtraScopes = drop, tokenType, skew, idTTL, d.Assertion, []string{"api"}
+		}
+		sib.peerKey, e.peerKey = &e.cryptoKey, &sib.cryptoKey
+		e.sibling = &sib
+	}
 	e.step(0)
+	if e.sibling != nil {
+		e.sibling.host, e.sibling.fwdHost = e.host, e.fwdHost
+	}
 	return e
+}
+
+// foreignKeys lists the crypto keys that are NOT this provider's key: a random one, the sibling tenant's, and whatever
+// stands in the application's config variable now (when that differs from the key the provider was built with).
+func (e *env) foreignKeys() map[string]op.Crypto {
+	m := map[string]op.Crypto{"the key of an unrelated provider": e.other}
+	if e.peerKey != nil {
+		m["the key of the other tenant built from the same config variable"] = op.NewAESCrypto(*e.peerKey)
+	}
+	if e.cfgPtr != nil && e.cfgPtr.CryptoKey != e.cryptoKey {
+		m["the key standing in the application's config variable now (written after this provider was built)"] = op.NewAESCrypto(e.cfgPtr.CryptoKey)
+	}
+	return m
 }
 
 func (e *env) setCustom() {
@@ -399,6 +489,12 @@ func (e *env) newRequest(method, path string, vals url.Values) *http.Request {
 
 func (e *env) do(step string, r *http.Request, shown url.Values) *opdrv.Resp {
 	resp := e.w.Do(e.router, r)
+	e.record(step, r, shown, resp)
+	return resp
+}
+
+// record appends the literal request / response to the case's trace (and notes a panic of the handler).
+func (e *env) record(step string, r *http.Request, shown url.Values, resp *opdrv.Resp) {
 	reqs := r.Method + " https://" + r.Host + r.URL.Path
 	if r.Method == http.MethodGet {
 		if r.URL.RawQuery != "" {
@@ -421,7 +517,6 @@ func (e *env) do(step string, r *http.Request, shown url.Values) *opdrv.Resp {
 	if resp.Panic != nil {
 		e.panicked(step, resp.Panic)
 	}
-	return resp
 }
 
 func (e *env) get(step, path string, vals url.Values) *opdrv.Resp {
@@ -430,6 +525,12 @@ func (e *env) get(step, path string, vals url.Values) *opdrv.Resp {
 
 // post sends a form POST with the client's registered authentication method.
 func (e *env) post(step, path string, form url.Values, c *vclient.Client) *opdrv.Resp {
+	r, f := e.buildPost(path, form, c)
+	return e.do(step, r, f)
+}
+
+// buildPost builds the form POST of post() for the Host of the current step without sending it.
+func (e *env) buildPost(path string, form url.Values, c *vclient.Client) (*http.Request, url.Values) {
 	f := url.Values{}
 	for k, v := range form {
 		f[k] = append([]string(nil), v...)
@@ -442,7 +543,7 @@ func (e *env) post(step, path string, form url.Values, c *vclient.Client) *opdrv
 	if hook != nil {
 		hook(r)
 	}
-	return e.do(step, r, f)
+	return r, f
 }
 
 func (e *env) authFor(c *vclient.Client) opdrv.ClientAuth {
